@@ -2,6 +2,8 @@
 From Helios Require Import Base.Prelude.
 
 Definition bytes := list Z.
+(* run-length notation used by the harness for long runs of one byte *)
+Definition rpt (n c : Z) : bytes := repeat c (Z.to_nat n).
 
 Fixpoint bytes_eqb (a b : bytes) : bool :=
   match a, b with
